@@ -5,11 +5,12 @@ S="${1:-/tmp/mut2}"; TIER="${2:-quick}"; ALL="${3:-}"
 HERE="$(cd "$(dirname "$0")" && pwd)"
 "$HERE/scratch.sh" setup "$S" >/dev/null 2>&1; "$HERE/scratch.sh" sync "$S"
 for d in /verif/seeded/*/; do
-  id="$(basename "$d")"; prop="$(python3 -c "import json;print(json.load(open('$d/meta.json'))['breaks_property'])")"
+  id="$(basename "$d")"; prop="$(python3 -c "import json;m=json.load(open('$d/meta.json'));print(m.get('check_with') or m['breaks_property'])")"
   "$HERE/scratch.sh" reset "$S"
   # patches were written against the /repo HEAD of their time (meta.json base_commit); later fix commits
   # may touch neighbouring lines: fall back to a 3-way apply
-  git -C "$S/repo" apply "$d/patch.diff" 2>/dev/null || git -C "$S/repo" apply --3way "$d/patch.diff" >/dev/null 2>&1 || { echo "$id: patch does not apply to the current HEAD (written against $(python3 -c "import json;print(json.load(open('$d/meta.json'))['base_commit'][:8])"))"; "$HERE/scratch.sh" reset "$S"; continue; }
+  # (patch_rebased.diff: the same change re-made by hand where a later fix commit rewrote the very lines)
+  git -C "$S/repo" apply "$d/patch.diff" 2>/dev/null || { [ -f "$d/patch_rebased.diff" ] && git -C "$S/repo" apply "$d/patch_rebased.diff" 2>/dev/null; } || { "$HERE/scratch.sh" reset "$S"; git -C "$S/repo" apply --3way "$d/patch.diff" >/dev/null 2>&1; } || { echo "$id: patch does not apply to the current HEAD (written against $(python3 -c "import json;print(json.load(open('$d/meta.json'))['base_commit'][:8])"))"; "$HERE/scratch.sh" reset "$S"; continue; }
   if [ -n "$ALL" ]; then PROPS="$(seq -f 'C%02g' 1 20)"; else PROPS="$prop"; fi
   RES=""
   for p in $PROPS; do
